@@ -392,6 +392,31 @@ func GenCodec(c *lib.Ctx) {
 		}
 		segCheck(c, b, 6, 3, 3, "malformed stream")
 	}
+	// ---- boundary: every record type 0..9 and the extremes, with and without the critical
+	// bit, with length fields 0..3 and a truthful body, alone and after a cookie; every
+	// error code around the mapped ones
+	for _, typ := range []uint16{0, 1, 2, 3, 4, 5, 6, 7, 8, 9, 0x7ffe, 0x7fff} {
+		for _, crit := range []uint16{0, 0x8000} {
+			for blen := 0; blen <= 3; blen++ {
+				c.Count("boundary:type-x-critical-x-length")
+				rec := mk("x", typ|crit, r.Bytes(blen))
+				segCheck(c, flat([]wrec{rec, mk("eom", 0x8000, nil)}), 8, 2, 1, "boundary")
+				segCheck(c, flat([]wrec{mk("ck", 5, r.Bytes(2)), rec, mk("ck", 5, r.Bytes(1)), mk("eom", 0, nil)}), 4, 1, 1, "boundary")
+			}
+		}
+	}
+	for _, code := range []uint16{0, 1, 2, 3, 4, 255, 256, 257, 512, 0xffff} {
+		for _, crit := range []uint16{0, 0x8000} {
+			c.Count("boundary:error-code")
+			rs := []wrec{mk("np", 0x8001, u16b(0)), mk("ck", 5, r.Bytes(3)), mk("err", 2|crit, u16b(code)), mk("eom", 0x8000, nil)}
+			got := segCheck(c, flat(rs), 30, 3, 2, "error record")
+			_, cls, _, _, _, _ := expectRead(rs, "", 0)
+			if !strings.HasPrefix(got, "err "+cls+" ") {
+				c.Fail("c20:reader-contract", "error record code is mapped to the wrong error", []string{"rd.read " + hexList([][]byte{flat(rs)})},
+					map[string]any{"want": cls, "got": got})
+			}
+		}
+	}
 	// ---- boundary: body lengths around bufio's 4096-byte buffer and the 16-bit maximum
 	for _, n := range []int{4091, 4092, 4093, 4095, 4096, 4097, 8192, 65535} {
 		for _, typ := range []uint16{5, 6, 9} {
